@@ -87,6 +87,10 @@ class Report:
                 print(f"BROKEN: {pid} {u['key']}: UNDECIDED: {u['what']} [{u['loc']}]")
             rc = 2
         rdir = os.path.join(VERIF, "replays", pid)
+        if os.path.isdir(rdir) and not replay_only:
+            for fn in os.listdir(rdir):
+                if fn.endswith(".json"):
+                    os.unlink(os.path.join(rdir, fn))
         if viol:
             os.makedirs(rdir, exist_ok=True)
             for n, v in enumerate(viol):
